@@ -429,8 +429,13 @@ func runC05(ctx *Ctx) error {
 		}
 		if r.Intn(2) == 0 {
 			peer.fw = []string{"REFPEER"}
-			if r.Intn(2) == 0 {
+			switch r.Intn(4) {
+			case 0:
 				peer.fw = append(peer.fw, "AUX1|12345678", "AUX2")
+			case 1:
+				peer.fw = append(peer.fw, "AUX1|12345678", "AUX2|87654321", "AUX3")
+			case 2:
+				peer.fw = []string{"REFPEER|00000001", "aux9"}
 			}
 		}
 		peer.prec = map[string]int{}
@@ -524,6 +529,19 @@ func runC05(ctx *Ctx) error {
 		if perr != nil && perr != io.EOF {
 			res.Fail(Failure{Kind: "oracle", Site: "peer-aborted", Case: cs, Detail: perr.Error()})
 			continue
+		}
+		// the forwarders the peer announced (password hashes stripped) are the ones the mailbox is asked for
+		if len(peer.fw) > 0 && len(h.fwAsked) > 0 {
+			var want []string
+			for _, f := range peer.fw {
+				want = append(want, strings.ToUpper(strings.SplitN(f, "|", 2)[0]))
+			}
+			for _, got := range h.fwAsked {
+				if strings.Join(got, " ") != strings.Join(want, " ") {
+					res.Fail(Failure{Kind: "oracle", Site: "forwarder-list", Case: cs, Detail: fmt.Sprintf("the peer announced the forwarders %v; the mailbox was asked for %v", want, got)})
+					break
+				}
+			}
 		}
 		// prescribed outcome
 		for _, m := range lib.Outbox {
